@@ -27,6 +27,7 @@ type Case struct {
 	Auth      bool              `json:"auth,omitempty"`
 	Conns     []Conn            `json:"conns"`
 	Parallel  bool              `json:"parallel,omitempty"`
+	OptSeed   int               `json:"opt_seed,omitempty"`
 }
 
 const q = "select 1"
@@ -283,7 +284,7 @@ func Run(c Case) core.Result {
 	}
 	res.Labels = append(res.Labels, fmt.Sprintf("connections=%d", len(c.Conns)))
 
-	cfg := script.Config{Params: c.Params, HasParams: c.HasParams, Version: c.Version, SetLimit: true, Limit: 1 << 14}
+	cfg := script.Config{Params: c.Params, HasParams: c.HasParams, Version: c.Version, SetLimit: true, Limit: 1 << 14, OptSeed: c.OptSeed}
 	cfg.Table.Q = map[string]script.Outcome{q: {Stmts: []script.Stmt{{Ops: []script.Op{{K: "complete", Tag: "OK"}}}}}}
 	if c.Auth {
 		cfg.Auth = &script.AuthSpec{User: "*", Pass: "pw"}
